@@ -28,6 +28,7 @@ tracked as seen, what is recorded as dropped vs injected), which the tracker-onl
 from __future__ import annotations
 
 import copy
+import itertools
 from typing import Any, Dict, List
 
 import struct
@@ -207,17 +208,96 @@ class CWorld:
         self.n_inj = 0
         self.oos: set = set()               # endpoint ids that were out of scope when first forwarded (never asserted)
         self.violations: List[Dict[str, Any]] = []
+        # prime the inbound side with packet id 1: every later carrier of the ack observation reuses that id, so the observation
+        # (memoised or not) leaves the circuit exactly as it found it
+        self.c.send(Message("TeleportStart", Block("Info", TeleportFlags=0), packet_id=1, flags=0, direction=Direction.IN))
+        self.c.drop_message(Message("TeleportStart", Block("Info", TeleportFlags=0), packet_id=1, flags=0, direction=Direction.IN))
+        del self.tp.sent[:]
 
 
 class CircuitHarness:
     """Same laws, observed on captured datagrams of a real ProxiedCircuit (direction OUT = viewer -> simulator)."""
     copyable = False
 
-    def __init__(self, maxlen: int):
+    def __init__(self, maxlen: int, ack_width: int = 3):
         self.maxlen = maxlen
+        self.ack_width = ack_width      # how many of the newest wire ids the back-translation observation permutes
+        self._ack_memo: set = set()
 
     def fresh(self) -> CWorld:
         return CWorld(self.maxlen)
+
+    @staticmethod
+    def _wire_acks(data: bytes):
+        """(appended acks, PacketAck body ids) of one captured datagram, decoded by hand."""
+        flags, _pid, off = struct.unpack(">BIB", data[:6])
+        appended: List[int] = []
+        end = len(data)
+        if flags & int(PacketFlags.ACK):
+            cnt = data[-1]
+            end = len(data) - 1 - 4 * cnt
+            appended = [struct.unpack(">I", data[end + 4 * i:end + 4 * i + 4])[0] for i in range(cnt)][::-1]   # last ack first on the wire
+        body = data[6 + off:end]
+        ids: List[int] = []
+        if body[:4] == b"\xff\xff\xff\xfb":
+            ids = [struct.unpack("<I", body[5 + 4 * i:9 + 4 * i])[0] for i in range(body[4])]
+        return appended, ids
+
+    def ack_oracle(self, w: CWorld, bad):
+        """Back-translation as the endpoint sees it: for every ordered list of up to 3 of the newest in-scope wire ids, an
+        inbound packet acknowledging them (appended to a forwarded packet, in a PacketAck body, appended to a dropped packet)
+        must reach the viewer acknowledging exactly the original ids of the non-injected ones (as a multiset; order is not stated). The carrier
+        packets all carry inbound packet id 1, so the observation leaves the circuit's state as the first of them left it."""
+        evicted = w.injected[:-self.maxlen] if len(w.injected) > self.maxlen else []
+        newest_evicted = evicted[-1] if evicted else 0
+        inj_all = set(w.injected)
+        expect: Dict[int, Any] = {}
+        for n, wire in w.sent.items():
+            if wire > newest_evicted and n not in w.oos and wire not in inj_all:
+                expect[wire] = n
+        for x in w.injected[len(evicted):]:
+            if x not in w.sent.values():
+                expect[x] = None
+        cand = sorted(expect)[-self.ack_width:]
+        # the observation is a function of the two trackers' state and the expectation map: one evaluation per distinct key and worker
+        key = (_tstate(w.c.out_injections), _tstate(w.c.in_injections), tuple((x, expect[x]) for x in cand))
+        if key in self._ack_memo:
+            return
+        n_bad = len(w.violations)
+        self._ack_done = key
+        for k in range(1, min(3, len(cand)) + 1):
+            for lst in itertools.permutations(cand, k):
+                want = [expect[x] for x in lst if expect[x] is not None]
+                for carrier in ("appended", "body", "dropped"):
+                    before = len(w.tp.sent)
+                    try:
+                        if carrier == "body":
+                            m = Message("PacketAck", *[Block("Packets", ID=x) for x in lst], packet_id=1, flags=0, direction=Direction.IN)
+                            w.c.send(m)
+                        else:
+                            m = Message("TeleportStart", Block("Info", TeleportFlags=0), packet_id=1, flags=0, direction=Direction.IN)
+                            m.acks = tuple(lst)
+                            m.send_flags |= PacketFlags.ACK
+                            if carrier == "appended":
+                                w.c.send(m)
+                            else:
+                                w.c.drop_message(m)
+                    except Exception as e:
+                        bad("exception", f"ProxiedCircuit:acks:{carrier}", f"acks {list(lst)}: {type(e).__name__}: {e}")
+                        continue
+                    got: List[int] = []
+                    for data, direction in w.tp.sent[before:]:
+                        if direction != Direction.IN:
+                            continue
+                        a, b = self._wire_acks(data)
+                        got += a + b
+                    del w.tp.sent[before:]
+                    if sorted(got) != sorted(want):      # which ids are acknowledged, not in which order
+                        bad("inverse", f"ProxiedCircuit:acks:{carrier}",
+                            f"injected so far {w.injected}, forwarded {sorted(w.sent.items())}: inbound acks {list(lst)} "
+                            f"reached the viewer as {got}, expected {want}")
+        if len(w.violations) == n_bad:
+            self._ack_memo.add(key)
 
     def enabled(self, w: CWorld):
         evs = [("S", 0), ("S", 1), ("I",), ("G", 1), ("D", 0), ("D", 1), ("T", 1)]
@@ -340,6 +420,8 @@ class CircuitHarness:
                     w.sent[n] = wire
             w.max_wire = max(w.max_wire, wire)
         self.oracle(w, bad)
+        if not w.violations:
+            self.ack_oracle(w, bad)
 
     def oracle(self, w: CWorld, bad):
         t = w.c.out_injections
@@ -378,7 +460,9 @@ def run(run: Run):
     devb = 3 if run.tier == "quick" else 4
     run.rule = ("explicit-state BFS over {S, G(1|2), O(n), I} on the real InjectionTracker with window maxlen in {1,2,3}, plus a second "
                 "search over {S, S-first-sight-RESENT, G, O(n), O(n)-RESENT, I, D(rop), T(ake+reinject), DO(n)} on a real ProxiedCircuit "
-                "(tracker window 2 and 10000) observing packet ids on the captured datagrams; "
+                "(tracker window 2 and 10000) observing packet ids on the captured datagrams and, in every state, the acks that reach the viewer for "
+                "every ordered list of up to 3 of the newest 3 (thorough: 4) wire ids acknowledged by an inbound packet (appended / PacketAck body / "
+                "appended to a dropped packet); "
                 "states deduplicated on (injections, bases, first-translation map, all-time injections); non-trivial = "
                 "distinct states in which some sent ID has a later injection above it (lookups below the newest injection)")
     run.assumptions += ["packet-id wrap-around excluded (documented unsupported)",
@@ -393,7 +477,8 @@ def run(run: Run):
     cdepth = 6 if run.tier == "quick" else 7
     cdev = 3 if run.tier == "quick" else 4
     for maxlen in (2, 10000):
-        explore.bfs(run, CircuitHarness(maxlen), depth=cdepth, dev_bound=cdev, label=f"circuit maxlen={maxlen} ")
+        explore.bfs(run, CircuitHarness(maxlen, ack_width=3 if run.tier == "quick" else 4), depth=cdepth, dev_bound=cdev,
+                    label=f"circuit maxlen={maxlen} ")
     run.coverage_extra["depth"] = depth
     run.coverage_extra["deviation_bound"] = devb
     run.coverage_extra["circuit_depth"] = cdepth
